@@ -350,6 +350,9 @@ def classify(orc, name, kind, P, entry, cursor=None, s3=None):
         sep = site['sep']
         if site.get('is_async') and 'def'.startswith(name) and P == site['kw_pos']:
             return 'async-def-name-prefix-of-def'
+        if '\n' in sep and site['pos'][0] == len(orc.lines):
+            # continued header whose name stands on the very last line of the file
+            return 'continued-def-header-ends-on-last-line'
         if sep.endswith('\t'):
             return 'def-tab-separator'
         if sep.endswith('\n'):
@@ -536,6 +539,11 @@ class Monitor(object):
                 p.count('text_searched_bindings_checked(import/def/class)')
             if (name, P) in orc.except_kw:
                 p.count('except_bindings_checked')
+            if kind in FIND_KINDS and any(s['kind'] == kind and s['pos'][0] == len(orc.lines) and '\n' in s.get('sep', '')
+                                          for s in orc.by_name.get(name, [])):
+                p.count('continued_def_class_headers_ending_on_the_last_line_checked')
+            if any(s['pos'][0] == len(orc.lines) for s in orc.by_name.get(name, [])):
+                p.count('bindings_checked_on_the_last_line_of_the_file')
             if kind == 'target' and any(s['pos'] in orc.paren_wrapped for s in orc.by_name.get(name, []) if s['kind'] == 'target'):
                 p.count('bindings_checked_of_identifiers_with_a_parenthesised_target')
             if name in orc.declared:
@@ -749,6 +757,16 @@ PROBES = [
     ('parenthesised-targets', 'cur_mod.py', 'total = acc = 0\nn = 2\n(total) += n\n( total ) *= 2\n(\n    acc\n) -= 1\n(x) = 1\n(y): int = 1\nfor (i) in [1]: pass\n'
                                             'with open(n) as (fh): pass\n[(p), q] = 1, 2\n((r), s) = 1, 2\ndel (x)\nzs = [k for (k) in [1]]\n'
                                             'print(total, acc, y, i, fh, p, q, r, s, zs)\n'),
+    ('eof-def-continued-no-newline', 'cur_mod.py', 'x = 1\n\n\ndef \\\nfact(n): return n'),
+    ('eof-def-continued-one-newline', 'cur_mod.py', 'x = 1\n\n\ndef \\\nfact(n): return n\n'),
+    ('eof-def-continued-extra-line', 'cur_mod.py', 'x = 1\n\n\ndef \\\nfact(n): return n\n\n'),
+    ('eof-def-continued-comment-line', 'cur_mod.py', 'x = 1\n\n\ndef \\\nfact(n): return n\n# fact'),
+    ('eof-async-class-continued', 'cur_mod.py', 'async \\\n def \\\n  go(): pass\n\n\nclass \\\n K: pass'),
+    ('eof-class-continued-one-newline', 'cur_mod.py', 'async \\\n def \\\n  go(): pass\n\n\nclass \\\n K: pass\n'),
+    ('eof-nested-def-continued', 'cur_mod.py', 'def outer():\n    def \\\n inner(): pass'),
+    ('eof-method-continued', 'cur_mod.py', 'class K(object):\n    async def \\\n        m(self): pass\n'),
+    ('eof-import-no-newline', 'cur_mod.py', 'x = 1\nfrom os import (sep,\n    path as \\\n p)'),
+    ('eof-assignment-no-newline', 'cur_mod.py', 'x = 1\n(a,\n (b)) = \\\n 1, 2'),
     ('except-as', 'cur_mod.py', 'try:\n    pass\nexcept   ValueError   as   e: print(e)\nexcept (KeyError, OSError)as e2:\n    print(e2)\n'),
     ('plain-layouts', 'vfp/cur_mod.py', 'import os, glob as g\nfrom . import alpha, sub as s\nfrom .alpha import (ab,\n                    b as bb)\n\n\n'
                                         '@staticmethod\ndef f(a, b=1, *args, c, **kw):\n    global G; G = 1\n    return a, b, args, c, kw\n\n\n'
@@ -945,6 +963,7 @@ def main(run):
                  'location_entries_right_of_cursor_on_cursor_line', 'except_bindings_checked',
                  'location_entries_checked_in_other_files', 'generated_texts', 'real_files',
                  'positions_compared(unsaved buffer)',
+                 'continued_def_class_headers_ending_on_the_last_line_checked',
                  'bindings_checked_of_identifiers_with_a_parenthesised_target',
                  'location_entries_right_of_cursor_on_cursor_line(global/nonlocal declared)',
                  'other_file_entries_on_the_cursor_line_number_right_of_cursor_plus_mark',
